@@ -328,7 +328,20 @@ func runC16(c *Ctx) {
 		bad = "Write does not enqueue exactly once"
 	} else {
 		ap, _ := callOf(unspill(enq[0].Common().Args[1]))
-		if ap == nil || p.CalleeID(ap.Common()) != "builtin:append" || unspill(ap.Common().Args[1]) != ssa.Value(wr.Params[1]) {
+		// make([]byte, len(b)) + copy(fresh, b) is the same private copy
+		okMake := false
+		if ms, isMake := unspill(enq[0].Common().Args[1]).(*ssa.MakeSlice); isMake {
+			if lc, _ := callOf(unspill(ms.Len)); lc != nil && p.CalleeID(lc.Common()) == "builtin:len" && unspill(lc.Common().Args[0]) == ssa.Value(wr.Params[1]) {
+				for _, cp := range p.CallsIn(wr, "builtin:copy") {
+					if unspill(cp.Common().Args[0]) == ssa.Value(ms) && unspill(cp.Common().Args[1]) == ssa.Value(wr.Params[1]) && instrDominates(cp, enq[0]) {
+						okMake = true
+					}
+				}
+			}
+		}
+		if okMake {
+			// holds
+		} else if ap == nil || p.CalleeID(ap.Common()) != "builtin:append" || unspill(ap.Common().Args[1]) != ssa.Value(wr.Params[1]) {
 			bad = "the enqueued slice is not append(fresh, b...)"
 		} else {
 			for _, o := range p.Origins(ap.Common().Args[0]) {
